@@ -429,6 +429,8 @@ theorem regcomp_shape_aux {p : Bytes} {flg : Nat} {prog : Prog}
   · cases h
   · cases h
   · rename_i t ht
+    split at h
+    · cases h
     simp only [Option.some.injEq] at h
     subst h
     refine ⟨emit (grpnum t 1).1 1, rfl, ?_, emit_bodyInst _ (grpnum_grpGe t 1) 1⟩
